@@ -16,7 +16,7 @@
 using namespace vf;
 typedef bxdecay0_g4::PrimaryGeneratorAction PGA;
 
-struct Case { PGA::ConfigurationInterface cf; int vkind = 0; /*0 none 1 unique 2 scripted 3 exhausted 4 heap generator lent by reference 5 heap generator handed over by pointer*/ G4ThreeVector pos; int nev = 1; std::string nclass; bool detach_first = false; int route = 0; /* how the request reaches the action: 0 SetConfiguration; 1 GrabConfiguration() = request, then ApplyConfiguration(); 2 SetConfiguration then an explicit ApplyConfiguration() */ };
+struct Case { PGA::ConfigurationInterface cf; int vkind = 0; /*0 none 1 unique 2 scripted 3 exhausted 4 heap generator lent by reference 5 heap generator handed over by pointer*/ G4ThreeVector pos; int nev = 1; std::string nclass; bool detach_first = false; bool touch_gun = false; /* between two events the application touches the gun through GetParticleGun(): number of particles, polarisation, position, time */ int route = 0; /* how the request reaches the action: 0 SetConfiguration; 1 GrabConfiguration() = request, then ApplyConfiguration(); 2 SetConfiguration then an explicit ApplyConfiguration() */ };
 // a vertex generator that records its own destruction: one LENT by reference must outlive the action, whatever was attached or detached before
 struct LentVG : public bxdecay0_g4::VertexGeneratorInterface { G4ThreeVector p; int * deaths; LentVG(const G4ThreeVector & p_, int * d) : p(p_), deaths(d) {} ~LentVG() override { (*deaths)++; } void ShootVertex(G4ThreeVector & v) override { v = p; } };
 struct VGBook { std::vector<LentVG *> lent; std::vector<int *> lent_deaths; };
@@ -126,6 +126,7 @@ static Res run_steps_on(PGA & action, VGBook & book, const std::vector<Case> & s
     else { static struct Origin : public bxdecay0_g4::VertexGeneratorInterface { void ShootVertex(G4ThreeVector & v) override { v = G4ThreeVector(0, 0, 0); } } origin; if (si > 0 && !c.detach_first) action.SetVertexGenerator(origin); }
     for (int k = 0; k < c.nev; k++) {
       vtx.push_back(c.vkind == 0 ? G4ThreeVector(0, 0, 0) : ((c.vkind == 1 || c.vkind >= 4) ? c.pos : svg.seq[k]));
+      if (c.touch_gun && k > 0 && action.GetParticleGun()) { G4ParticleGun * gun = action.GetParticleGun(); gun->SetNumberOfParticles(2 + k % 3); gun->SetParticlePolarization(G4ThreeVector(0, 1, 0)); gun->SetParticlePosition(G4ThreeVector(7, 7, 7)); gun->SetParticleTime(123.0); }
       try { action.GeneratePrimaries(&evs[k]); } catch (std::exception & e) { threw = true; what = e.what(); break; }
     }
     int aborts = G4RunManager::GetRunManager()->abort_count; size_t nprim = 0; for (auto & e : evs) nprim += e.primaries.size();
@@ -153,6 +154,7 @@ static Res run_steps_on(PGA & action, VGBook & book, const std::vector<Case> & s
         for (int d = 0; d < 3; d++) if (std::fabs(p[d] - q[d]) > 1e-12 * n + 1e-300) return fail("momentum", stepname + "primary " + std::to_string(i) + " momentum component " + std::to_string(d) + " = " + jnum(q[d]) + " MeV, the core generator's particle for the same request has " + jnum(p[d]));
         double t = pr[i].time / CLHEP::second;
         if (std::fabs(t - ps[i].get_time()) > 1e-12 * std::fabs(ps[i].get_time()) + 1e-300) return fail("time", stepname + "primary " + std::to_string(i) + " time " + jnum(t) + " s, BxDecay0 particle has " + jnum(ps[i].get_time()) + " s");
+        if (pr[i].polarization.x() != 0 || pr[i].polarization.y() != 0 || pr[i].polarization.z() != 0) return fail("polarization", stepname + "primary " + std::to_string(i) + " of event " + std::to_string(k) + " carries a polarisation: BxDecay0 particles have none (left over from what the application set on the gun between two events)");
         if (pr[i].position.x() != vtx[k].x() || pr[i].position.y() != vtx[k].y() || pr[i].position.z() != vtx[k].z()) return fail("vertex", stepname + "primary " + std::to_string(i) + " of event " + std::to_string(k) + " is not at the vertex supplied by the vertex generator");
       }
     }
@@ -173,7 +175,7 @@ static Case gen_case(uint64_t h)
     if (r.chance(0.35)) { f.nuclide = r.pick(dbd); f.dbd_level = r.chance(0.6) ? 0 : r.range(1, 4); f.dbd_mode = r.range(1, 20); c.nclass = "generated-level-mode"; } }
   else f.nuclide = r.pick(bkg);
   f.seed = r.chance(0.6) ? r.range(1, 1000000) : (int[]){1, 42, 314159, 2147483647}[r.range(0, 3)];
-  c.nev = r.range(1, 4); c.vkind = r.range(0, 2); if (r.chance(0.05)) c.vkind = 3; else if (r.chance(0.3)) c.vkind = r.range(4, 5); c.detach_first = r.chance(0.3); c.route = r.chance(0.4) ? r.range(1, 2) : 0; c.pos = G4ThreeVector(r.uniform(-50, 50), r.uniform(-50, 50), r.uniform(-50, 50));
+  c.nev = r.range(1, 4); c.vkind = r.range(0, 2); if (r.chance(0.05)) c.vkind = 3; else if (r.chance(0.3)) c.vkind = r.range(4, 5); c.detach_first = r.chance(0.3); c.route = r.chance(0.4) ? r.range(1, 2) : 0; c.touch_gun = r.chance(0.3); c.pos = G4ThreeVector(r.uniform(-50, 50), r.uniform(-50, 50), r.uniform(-50, 50));
   if (r.chance(0.2)) { f.use_mdl = true; static const char * nm[] = {"e-", "gamma", "all", "*", "alpha", "e+"}; f.mdl_target_name = nm[r.range(0, 5)]; f.mdl_target_rank = r.range(-1, 2); f.mdl_cone_longitude = r.uniform(0, 360); f.mdl_cone_colatitude = r.uniform(0, 180); f.mdl_cone_aperture = r.uniform(0, 80); if (r.chance(0.3)) f.mdl_cone_aperture2 = r.uniform(1, 80); }
   // mutations
   int nm = r.chance(0.45) ? 0 : r.range(1, 2);
